@@ -67,6 +67,13 @@ def run(ctx):
     lines = [life_line(c, i % 2) for i, c in enumerate(seq)]
     rc, out, err = run_san(aexe, lines, env, 7200)
     judge('ASan/LSan/UBSan, %d key sets one after the other in one process (n = %s)' % (len(seq), [c[1] for c in seq]), 'sequence', rc, out, err, {'tool': 'asan', 'lines': lines})
+    # release during process termination: keys, key sets and ciphertexts that refer to library-owned parameter objects are deleted by clean-up code the
+    # application registered before its first use of the library (atexit() at the top of main; a static RAII holder) - one fresh process each
+    for variant, vname in ((0, 'atexit() handler registered first'), (1, 'static RAII holder constructed first')):
+        for full in ((0, 1) if thorough else (0,)):
+            el = ['exitlife %d %d 128' % (variant, full)]
+            rc, out, err = run_san(aexe, el, env, 3600)
+            judge('ASan/LSan/UBSan, objects released during process termination (%s%s)' % (vname, ', full key set' if full else ''), 'exitlife %d %d' % (variant, full), rc, out, err, {'tool': 'asan', 'lines': el})
     # the lower-level key lifecycle: the coefficient-domain bootstrapping key is deleted before its FFT conversion is used and deleted
     flines = ['fftkeylife 3 1 2 10 8 2', 'fftkeylife 9 2 3 7 4 4', 'fftkeylife 1 1 2 16 2 8']
     rc, out, err = run_san(aexe, flines, env, 3600)
